@@ -79,6 +79,8 @@ def make_case(g, rules, docs, calls):
             lines.append(f"S.rules[{ri}].test(docs[{di}])")
         elif kind == "get":
             lines.append(f"S.rules[{ri}].path.get_data(docs[{di}], return_paths=True)")
+        elif kind in ("data_get", "data_get_alt"):
+            lines.append(f"# Data(docs[{di}]).get(*<plain keys of rule {ri}{' with int<->float spellings' if kind.endswith('alt') else ''}>, return_paths=True)")
         else:
             lines.append(f"(S.rules[{ri}].condition.filter(docs[{di}]) if isinstance(docs[{di}], (list, dict)) and docs[{di}] else None)")
     lines.append("print(docs == before)")
@@ -110,12 +112,42 @@ def make_case(g, rules, docs, calls):
             return enc.outcome(f)
         if kind == "get":
             return enc.outcome(lambda: enc.enc_val(rule.path.get_data(d, return_paths=True)))
+        if kind in ("data_get", "data_get_alt"):
+            # lookup with bare parts; `_alt` uses numerically equal keys of the other numeric type (1 <-> 1.0),
+            # which are different parts (an int may be a list index, a float is a mapping key only)
+            prims = [p[1] for p in rules[ri % len(rules)]["parts"] if p[0] == "prim"]
+            if len(prims) != len(rules[ri % len(rules)]["parts"]):
+                return ["ok", None]
+            if kind == "data_get_alt":
+                prims = [float(x) if type(x) is int else (int(x) if type(x) is float and x == int(x) else x) for x in prims]
+            return enc.outcome(lambda: enc.enc_val(Data(d).get(*prims, return_paths=True)) if isinstance(d, (list, dict)) and d else None)
         return enc.outcome(lambda: list(rule.condition._filter(Data(d)).result))
+
+    def reference_get(call):
+        """independent reference for a lookup with plain keys: the single node and its path, or None"""
+        kind, ri, di = call
+        parts = rules[ri % len(rules)]["parts"]
+        if any(p[0] != "prim" for p in parts):
+            return None
+        if kind == "data_get_alt":
+            parts = [("prim", float(p[1]) if type(p[1]) is int else (int(p[1]) if type(p[1]) is float and p[1] == int(p[1]) else p[1]))
+                     for p in parts]
+        d = docs[di]
+        if not isinstance(d, (list, dict)) or not d:
+            return None
+        sel = terms.walk(parts, d)
+        if not parts:
+            return ["ok", enc.enc_val((d, ()))]
+        return ["ok", enc.enc_val((sel[0][0], tuple(sel[0][1])))] if sel else ["ok", enc.enc_val(None)]
 
     results = []
     for i, call in enumerate(calls):
         o = run(call, S, docs)
         results.append(o)
+        if call[0] in ("data_get", "data_get_alt"):
+            want = reference_get(call)
+            if want is not None and o != want:
+                c.fail("lookup_depends_on_history", f"call #{i} {call}: Data.get gave {o!r:.200}, the part-by-part walk gives {want!r:.200}")
         # inputs unchanged after every call
         for j, d in enumerate(docs):
             if doc_snapshot(d) != d_before[j]:
@@ -170,8 +202,14 @@ def generate(rng, n, tier):
         docs = [gen_doc_for_parts(g, rng.choice(rules)["parts"], leaf=rc.cast_leaf(g) if rng.random() < 0.5 else None)
                 for _ in range(ndocs)]
         ncalls = rng.choice([3, 4, 6, 8] if tier == "quick" else [4, 8, 12, 16])
-        calls = [(rng.choice(["validate", "validate", "test", "get", "filter"]), rng.randrange(k), rng.randrange(ndocs))
+        calls = [(rng.choice(["validate", "validate", "test", "get", "filter", "data_get", "data_get_alt"]), rng.randrange(k), rng.randrange(ndocs))
                  for _ in range(ncalls)]
+        if rng.random() < 0.3:
+            # the same lookup with int and float spellings of the keys, in both orders, on the same document
+            ri, di = rng.randrange(k), rng.randrange(ndocs)
+            pair = [("data_get", ri, di), ("data_get_alt", ri, di)]
+            rng.shuffle(pair)
+            calls = calls[:2] + pair + calls[2:] + pair[::-1]
         c = make_case(g, rules, docs, calls)
         if c is not None:
             cases.append(c)
